@@ -1,8 +1,25 @@
 ENGINES = [
- dict(name="scenario", path="vf/engine.py", serves_properties=["C01"], kind_free_text="seeded random histories driven through the real git-ai binary in isolated worlds; ground-truth ledger on unique line tokens; global C03/C05 monitors after every step"),
+ dict(name="scenario", path="vf/engine.py", serves_properties=["C01","C02","C03","C04","C05"], kind_free_text="seeded random histories driven through the real git-ai binary in isolated worlds; ground-truth ledger on unique line tokens; global C03/C05 monitors after every step"),
 ]
 PENDING = {}
 CHECKS["C01"] = dict(engine="scenario", level="exploration", ref="DESIGN.md §3 C01, §2.3",
   technique="runtime monitoring: ledger oracle over notes and blame of generated commit histories",
   text="Hundreds (quick) to thousands (thorough) of seeded random edit scripts are run against the real binary; after every commit the note and `git-ai blame --json` are compared line by line with a content-keyed ground-truth ledger that shares nothing with git-ai's diffing. Exploration is the right level: the property quantifies over all contents/interleavings/positions, which can only be sampled; the oracle is exact for unique-token lines.",
   note="Trusts installed git 2.39.5 for `diff -U0`/cat-file; exact only for unique-token lines (decoy blank/duplicate lines: soundness direction only); open findings D13/D17 remove two shapes from the completeness assertion (see known_findings.json).")
+
+CHECKS["C02"] = dict(engine="scenario", level="exploration", ref="DESIGN.md §3 C02",
+  technique="runtime monitoring: ledger oracle over blame/notes after generated history rewrites; before/after digests for aborted, failing and dry-run operations",
+  text="Random commit graphs are rewritten through the real binary (rebase plain/--onto/-i, cherry-pick, amend, squash merge, reset+recommit, stash round trips, switch carrying work, merges; conflicts resolved, skipped or aborted) and closed by commit-everything; the ledger decides every surviving line; no-op operations are compared by digests of notes content and effective pending attribution. Exploration is the right level because the quantifier ranges over graphs, ranges, positions and conflict points that can only be sampled.",
+  note="Several rewrite shapes are open findings (D2, D12, D20-D23) and are excluded from random exploration by trigger flags while their pinned witnesses keep reporting them; whitespace-only edits are excluded here (D13/D17/D24 family).")
+CHECKS["C03"] = dict(engine="scenario", level="exploration", ref="DESIGN.md §3 C03",
+  technique="runtime monitoring: universal-negative ledger monitor on every note and blame after every step of destructive-command scripts",
+  text="Scripts oversampling destructive commands (reset --hard, forced/path checkout, restore, stash drop/clear, branch -D, clean, rm, mv, aborted operations) followed by a person typing at the discarded positions; after every step every AI claim in any note and in blame at HEAD must be backed by the content ledger. Only the soundness direction is asserted, as the property tolerates loss.",
+  note="The same monitor rides on every other scenario check. Open findings D3p (unreported human edit above pending lines) and D24 (AI whitespace change + stash) are excluded by trigger flags.")
+CHECKS["C04"] = dict(engine="scenario", level="exploration", ref="DESIGN.md §3 C04",
+  technique="runtime monitoring: ledger oracle per partial commit plus once-only count of content keys over the notes of the sequence",
+  text="Sequences of 2-5 partial commits by file subset and by staged hunk subset (index built with hash-object/update-index, equivalent to add -p) are closed by commit-everything; each commit's note must list exactly the AI lines git says it added, every AI line must end AI(S) in blame, and no content key may be listed by two commits.",
+  note="Index content is constructed directly; interactive `commit -p` UI itself is not driven. Human edits on files with pending claims are checkpointed while D3p is open.")
+CHECKS["C05"] = dict(engine="scenario", level="exploration", ref="DESIGN.md §3 C05",
+  technique="runtime monitoring: independent v3 note parser + git plumbing invariants after every step, under re-laid-out notes trees",
+  text="After every step of generated histories (commit, partial commit, amend, rebase, cherry-pick, squash; unusual and extreme file names) every object in refs/notes/ai is read with ls-tree/cat-file and validated by a parser written from the published spec; the notes tree is re-laid-out (flat, 2/38, 2/2/36, mixed, and grown with synthetic notes in the thorough tier) before rewrite steps.",
+  note="Trusts git plumbing and the spec text. File names `---` and names containing a newline are open findings D4/D27 (format cannot represent them).")
